@@ -60,6 +60,7 @@ type mutexState struct {
 	vc       []int
 	accessor *goroutine // exclusive-phase owner
 	shared   bool
+	readers  int // sync.RWMutex: read locks held
 }
 
 type wgState struct {
@@ -699,17 +700,39 @@ func (it *interpreter) mutexLock(fr *frame, p *value) {
 	if visible {
 		it.schedPoint(fr, "Lock")
 	}
-	if m.locked {
-		if m.owner == g && g.atomicDepth == 0 {
-			// self-deadlock; block() will report it if nobody else can run
-		}
-		it.block(fr, fmt.Sprintf("Lock of mutex#%d (%s) held by g%d", m.id, m.site, ownerID(m)), func() bool { return !m.locked })
+	if m.locked || m.readers > 0 {
+		it.block(fr, fmt.Sprintf("Lock of mutex#%d (%s) held by g%d", m.id, m.site, ownerID(m)), func() bool { return !m.locked && m.readers == 0 })
 	}
 	m.locked = true
 	m.owner = g
 	g.held = append(g.held, m)
 	if it.hb != nil {
 		it.hb.acquire(g, m.vc)
+	}
+}
+
+// rLock / rUnlock: read side of sync.RWMutex (readers share, a writer excludes).
+func (it *interpreter) rLock(fr *frame, p *value) {
+	m := it.mutexOf(fr, p)
+	it.classifyMutex(fr, m)
+	it.schedPoint(fr, "RLock")
+	if m.locked {
+		it.block(fr, fmt.Sprintf("RLock of mutex#%d (%s) held by g%d", m.id, m.site, ownerID(m)), func() bool { return !m.locked })
+	}
+	m.readers++
+	if it.hb != nil {
+		it.hb.acquire(fr.g, m.vc)
+	}
+}
+
+func (it *interpreter) rUnlock(fr *frame, p *value) {
+	m := it.mutexOf(fr, p)
+	if m.readers <= 0 {
+		panic(targetFault("fatal error: sync: RUnlock of unlocked RWMutex"))
+	}
+	m.readers--
+	if it.hb != nil {
+		it.hb.release(fr.g, &m.vc)
 	}
 }
 
